@@ -89,6 +89,7 @@ func chunkOldIndex(ctx context.Context, file *os.File, name string, fileSizeLimi
 			if err == io.EOF {
 				break
 			}
+			outFile.Close()
 			return 0, err
 		}
 		size := binary.LittleEndian.Uint32(sizeBuffer)
@@ -109,6 +110,7 @@ func chunkOldIndex(ctx context.Context, file *os.File, name string, fileSizeLimi
 		written += sizePrefixSize + int64(size)
 		if written >= fileSizeLimit {
 			if err = writer.Flush(); err != nil {
+				outFile.Close()
 				return 0, err
 			}
 			outFile.Close()
@@ -128,6 +130,7 @@ func chunkOldIndex(ctx context.Context, file *os.File, name string, fileSizeLimi
 	}
 	if written != 0 {
 		if err = writer.Flush(); err != nil {
+			outFile.Close()
 			return 0, err
 		}
 	}
